@@ -485,8 +485,19 @@ func programs(r *vf.Run) []program {
 				}
 				data, _ := json.Marshal(spec)
 				sj, _ := json.Marshal(sch)
-				ps = append(ps, program{ID: fmt.Sprintf("m_%04d_%s", i, where), Group: "minimal", Spec: data, Opts: featureOpts([]string{"paths/server", "paths/client", "ogen/unimplemented"}, ""),
-					Attrs: map[string]string{"where": where, "schema": string(sj)}, Desc: M{"only_construct": json.RawMessage(sj), "as": where}})
+				// which sides are generated decides which files use the shared tables (compiled
+				// patterns, rationals) and helper files: a construct that feeds those tables is
+				// compiled under every one-sided configuration, the others take turns
+				sides := [][]string{{"paths/server", "paths/client", "ogen/unimplemented"}, {"paths/client"}, {"paths/server", "ogen/unimplemented"},
+					{"paths/client", "client/request/validation", "client/request/options"}, {"paths/server", "server/response/validation"}, {"paths/client", "webhooks/server", "webhooks/client"}}
+				sideNames := []string{"client+server", "client-only", "server-only", "client-only+request-validation", "server-only+response-validation", "client+webhook-sides"}
+				for k, feats := range sides {
+					if !(strings.Contains(string(sj), `"pattern"`) || strings.Contains(string(sj), `"multipleOf"`)) && k != i%len(sides) && k != 0 {
+						continue
+					}
+					ps = append(ps, program{ID: fmt.Sprintf("m_%04d_%s_%d", i, where, k), Group: "minimal", Spec: data, Opts: featureOpts(feats, ""),
+						Attrs: map[string]string{"where": where, "schema": string(sj), "sides": sideNames[k]}, Desc: M{"only_construct": json.RawMessage(sj), "as": where, "generated_sides": sideNames[k]}})
+				}
 			}
 		}
 	}
